@@ -19,12 +19,11 @@ func execOrthoRouting(g *graph.DGraph, routes []routableEdge, params graph.Param
 
 		for i := 1; i < len(r.ns); i++ {
 			sp := startPoint(r.ns[i-1])
-			// virtual nodes have 0 size; another solution here is to consider the layer Y instead of the node Y
-			if r.ns[i-1].IsVirtual {
-				sp[1] += layerh
-			}
 			r.Points = append(r.Points, sp)
-			r.Points = append(r.Points, [2]float64{sp[0], sp[1] + halfLayerSpacing})
+			// the elbow sits half a layer spacing below the bottom of the node's layer, which may be
+			// taller than the node itself; this keeps the segment to the next elbow horizontal
+			layerBottom := r.ns[i-1].Y + g.Layers[r.ns[i-1].Layer].H
+			r.Points = append(r.Points, [2]float64{sp[0], layerBottom + halfLayerSpacing})
 
 			ep := endPoint(r.ns[i])
 			r.Points = append(r.Points, [2]float64{ep[0], ep[1] - halfLayerSpacing})
